@@ -28,6 +28,7 @@ func TestC03BitcoinSpendsLndAdapter(t *testing.T) {
 		seed := rapid.StringMatching(`[a-z]{6}`).Draw(t, "seed")
 		w := realtx.NewBtcWallet(seed)
 		w.Inputs = rapid.IntRange(1, 3).Draw(t, "inputs")
+		w.NestedInputs = rapid.SampledFrom([]int{0, 0, 1, 3}).Draw(t, "nestedSegwitInputs")
 		w.OutsBefore = rapid.IntRange(0, 3).Draw(t, "outsBefore")
 		w.OutsAfter = rapid.IntRange(0, 2).Draw(t, "outsAfter")
 		w.EqualValue = w.OutsBefore > 0 && rapid.IntRange(0, 3).Draw(t, "equalValueBefore") == 0
@@ -70,6 +71,37 @@ func TestC03BitcoinSpendsLndAdapter(t *testing.T) {
 		if int(vout) != trueVout {
 			t.Fatalf("VKEY[C08/btc/wrong-vout] %s: adapter reports swap output index %d, it is %d", desc, vout, trueVout)
 		}
+		// the opening transaction may also be the peer's: any transaction the validator accepts is in the
+		// domain, e.g. one with further outputs to the swap script that carry another value
+		decoy := rapid.SampledFrom([]string{"none", "none", "none", "same-script-smaller-before", "same-script-larger-before", "same-script-after", "same-script-dust-before"}).Draw(t, "peerDecoy")
+		if decoy != "none" {
+			peerTx := opening.Copy()
+			var dv int64
+			switch decoy {
+			case "same-script-smaller-before", "same-script-after":
+				dv = int64(amount) - int64(rapid.SampledFrom([]uint64{1, 1000, amount / 2}).Draw(t, "decoyDelta"))
+			case "same-script-larger-before":
+				dv = int64(amount) + int64(rapid.SampledFrom([]uint64{1, 1000, amount}).Draw(t, "decoyDelta"))
+			case "same-script-dust-before":
+				dv = 330
+			}
+			d := wire.NewTxOut(dv, want)
+			if decoy == "same-script-after" {
+				peerTx.TxOut = append(peerTx.TxOut, d)
+			} else {
+				peerTx.TxOut = append([]*wire.TxOut{d}, peerTx.TxOut...)
+			}
+			var pb bytes.Buffer
+			_ = peerTx.Serialize(&pb)
+			opening, txHex = peerTx, hex.EncodeToString(pb.Bytes())
+			trueVout = -1
+			for i, o := range opening.TxOut {
+				if bytes.Equal(o.PkScript, want) && o.Value == int64(amount) {
+					trueVout = i
+				}
+			}
+			desc += " peerDecoy=" + decoy
+		}
 		valid, verr := chain.ValidateTx(params, txHex)
 		kind := rapid.SampledFrom([]string{"preimage", "csv", "coop"}).Draw(t, "kind")
 		var cerr error
@@ -94,7 +126,7 @@ func TestC03BitcoinSpendsLndAdapter(t *testing.T) {
 		if err := checkBtcSpend(kind, spend, opening, uint32(trueVout), amount, w, est, fallback, floor); err != nil {
 			t.Fatalf("VKEY[C03/btc/%s-spend-invalid] %s: %v", kind, desc, err)
 		}
-		col.Case(desc+kind, trueVout != 0 || len(opening.TxOut) >= 2, map[string]interface{}{"kind": kind, "amount": amount, "swap_vout": trueVout, "outputs": len(opening.TxOut)}, "kind:"+kind, fmt.Sprintf("vout:%d", trueVout))
+		col.Case(desc+kind, trueVout != 0 || len(opening.TxOut) >= 2, map[string]interface{}{"kind": kind, "amount": amount, "swap_vout": trueVout, "outputs": len(opening.TxOut)}, "kind:"+kind, fmt.Sprintf("vout:%d", trueVout), "peer-decoy:"+decoy, fmt.Sprintf("nested-inputs:%d", min(w.NestedInputs, w.Inputs)))
 	})
 }
 
